@@ -3,6 +3,7 @@ package props
 import (
 	"bytes"
 	"context"
+	"errors"
 	"fmt"
 	"math/big"
 	"math/rand/v2"
@@ -35,6 +36,7 @@ func init() {
 			need(m, &out, "pes_written_and_compared", 20000)
 			need(m, &out, "durations_checked", 500000)
 			need(m, &out, "big_units_decoded", 15)
+			need(m, &out, "short_header_length_cases", 10000)
 			needSet(m, &out, "flag_bytes", 256)
 			needSet(m, &out, "ext_subsets", 32)
 			needSet(m, &out, "trick_bytes", 256)
@@ -231,7 +233,86 @@ func setLenMode(r *rand.Rand, pc *pesCase) {
 	}
 }
 
+// shortHeaderCase: PES_header_data_length smaller than what the flags announce (a malformed header: its fields are whatever the
+// bytes give). Where the payload starts and ends is still said by the two length fields: whenever the library delivers data for such a
+// unit, they are the bytes from 9 + PES_header_data_length up to the end PES_packet_length gives (the end of the unit when it is 0) —
+// never bytes from behind that end, never a payload that has lost its first bytes.
+func shortHeaderCase(c *mon.Ctx, idx int64, r *rand.Rand) {
+	pc := newPESCase(r, -1, -1)
+	for pc.h.OptionalHeader == nil || gen.IsNoHeaderID(pc.h.StreamID) {
+		pc = newPESCase(r, -1, -1)
+	}
+	pc.enc = refts.PESEnc{LengthZero: idx%3 == 0}
+	if len(pc.data) < 4 {
+		pc.data = gen.Bytes(r, 4+r.IntN(40))
+	}
+	b, err := refts.EncodePES(pc.h, pc.data, pc.enc, nil)
+	if err != nil || len(b) < 10 || int(b[8]) == 0 {
+		return
+	}
+	need := int(b[8])
+	h := r.IntN(need)
+	if idx%4 == 0 {
+		h = []int{0, need - 1, need / 2}[r.IntN(3)]
+	}
+	b = append([]byte{}, b...)
+	b[8] = byte(h)
+	end := len(b)
+	if l := int(b[4])<<8 | int(b[5]); l != 0 {
+		end = 6 + l
+	}
+	pad := 0
+	if idx%2 == 0 {
+		pad = 1 + r.IntN(30) // bytes that follow the PES packet in its unit
+	}
+	in := append(append([]byte{}, b...), bytes.Repeat([]byte{0xff}, pad)...)
+	if pc.enc.LengthZero {
+		end = len(in)
+	}
+	want := in[9+h : end]
+	data := map[string]any{"pes": mon.Hex(in, 400), "header_data_length": h, "needed_by_the_flags": need}
+	check := func(path string, got *astits.PESData, gerr error) {
+		c.Count("short_header_length_cases")
+		if gerr != nil || got == nil {
+			c.Count("short_header_length_rejected")
+			return
+		}
+		if !bytes.Equal(got.Data, want) {
+			c.Violate("C12/decode/payload-boundaries-with-short-header-length", "short-header", idx, fmt.Sprintf("%s: PES_header_data_length %d (the flags need %d), PES_packet_length gives the end %d of %d bytes: data delivered %x (%d bytes), the bytes between the two boundaries are %x (%d bytes)",
+				path, h, need, end, len(in), clipBytes(got.Data, 24), len(got.Data), clipBytes(want, 24), len(want)), data)
+		}
+	}
+	var got *astits.PESData
+	var gerr error
+	if p, v, st := mon.Guarded(func() { got, gerr = astits.VerifParsePESData(append([]byte{}, in...)) }); p {
+		c.Violate("C12/decode/panic", "short-header", idx, fmt.Sprintf("%v\n%s", v, st), data)
+		return
+	}
+	check("parsePESData", got, gerr)
+	if idx%2 == 0 {
+		// through the Demuxer: the unit is the PES packet followed by 0xff bytes up to the end of its last packet
+		ls := newLongStream()
+		ls.unit(0x100, in)
+		ds, errs, pn := drainData(ls.b)
+		if pn != "" {
+			c.Violate("C12/decode/panic", "short-header", idx, pn, data)
+			return
+		}
+		if len(ds) == 1 && ds[0].PES != nil && len(errs) == 0 {
+			check("NextData", ds[0].PES, nil)
+		} else {
+			check("NextData", nil, errors.New("nothing delivered"))
+		}
+	}
+	c.Case(mon.HashBytes("pes-shorthdr", in), true)
+}
+
 func runC12(c *mon.Ctx) {
+	for i := int64(0); i < c.Pick(20000, 1000000); i++ {
+		if c.Mine("short-header", i) {
+			shortHeaderCase(c, i, c.Rng("short-header", i))
+		}
+	}
 	// stage flags: every flag byte x every extension subset
 	for f := int64(0); f < 256*32; f++ {
 		if !c.Mine("flags", f) {
